@@ -561,6 +561,7 @@ def check_other_kernels(chk, impl, haf_cases, real_cases, plain_exe, san_exe, ru
         absM = [[[math.hypot(*x), 0] for x in row] for row in c["M"]]
         absD = None if diag is None else [[math.hypot(*x), 0] for x in diag]
         bad = None
+        bad_cls = c["prec"]
         if len(got) != len(refs):
             bad = "length %d != %d" % (len(got), len(refs))
         else:
@@ -589,10 +590,12 @@ def check_other_kernels(chk, impl, haf_cases, real_cases, plain_exe, san_exe, ru
                 tol = base * (abs(rv[0]) + abs(rv[1])) + Fraction(64 * max(1, n)) * Fraction(EPS[c["prec"]]) * S * 2 ** ((n + 1) // 2)
                 if not _close_c(gv, rv, tol):
                     bad = "entry %d: got %s, defining sum %s" % (k, gv, [_fl(rv[0]), _fl(rv[1])])
+                    if kind.startswith("lhaf") and n % 2 == 1 and mexp < 0:
+                        bad_cls = "odd-total-small-scale"
                     break
         if bad:
-            chk.violation("C04:%s:value:%s" % (call, c["prec"]), "%s differs from the sum over matchings: %s" % (call, bad),
-                          dict(wit, returned=got, expected=[[_fl(a), _fl(b)] for a, b in refs]))
+            chk.violation("C04:%s:value:%s" % (call, bad_cls), "%s differs from the sum over matchings: %s" % (call, bad),
+                          dict(wit, returned=got, failing_entry=bad))
         elif len(samples) < 2 and nt:
             samples.append({"call": call, "occ": c["occ"], "rescaled_m": c.get("m"), "got": got[:2], "exact": [_fl(refs[0][0]), _fl(refs[0][1])]})
     for call in sorted(unsupported_f32):
